@@ -1,13 +1,10 @@
 package main
 
 import (
-	"bytes"
 	"context"
 	"encoding/json"
 	"fmt"
 	"log/slog"
-	"os"
-	"os/exec"
 	"runtime"
 	"strings"
 	"sync"
@@ -127,13 +124,15 @@ type c09World struct {
 	firstP  atomic.Value
 }
 
+// c09Sink is deliberately NOT synchronised: only zap's own locking (zapcore.Lock, BufferedWriteSyncer.mu) protects it,
+// so a missing lock in zap shows up as a race report on these fields.
 type c09Sink struct {
-	mu sync.Mutex
-	n  int
+	n     int
+	syncs int
 }
 
-func (s *c09Sink) Write(p []byte) (int, error) { s.mu.Lock(); s.n += len(p); s.mu.Unlock(); return len(p), nil }
-func (s *c09Sink) Sync() error                 { return nil }
+func (s *c09Sink) Write(p []byte) (int, error) { s.n += len(p); return len(p), nil }
+func (s *c09Sink) Sync() error                 { s.syncs++; return nil }
 
 func c09Build(op *c09Op) *c09World {
 	w := &c09World{al: zap.NewAtomicLevelAt(zapcore.DebugLevel), sink: &c09Sink{}, min: -1}
@@ -356,8 +355,6 @@ func c09Expected(op *c09Op, w *c09World) int {
 	return n
 }
 
-const c09Timeout = 30 * time.Second // programs take milliseconds: ≥ 30× the observed duration by a wide margin
-
 func c09RunOnce(op *c09Op) (impl map[string]any, w *c09World, dump string) {
 	prevL := zap.L()
 	defer zap.ReplaceGlobals(prevL)
@@ -366,8 +363,7 @@ func c09RunOnce(op *c09Op) (impl map[string]any, w *c09World, dump string) {
 		w.shared.Info("w-warm")
 		_ = w.shared.Sync()
 	}
-	done := make(chan struct{})
-	go func() {
+	timeout, dump := concWD.watched(func() {
 		var wg sync.WaitGroup
 		start := make(chan struct{})
 		for g := range op.Gs {
@@ -383,16 +379,7 @@ func c09RunOnce(op *c09Op) (impl map[string]any, w *c09World, dump string) {
 		if w.bws != nil {
 			_ = w.bws.Stop()
 		}
-		close(done)
-	}()
-	timeout := false
-	select {
-	case <-done:
-	case <-time.After(c09Timeout):
-		timeout = true
-		buf := make([]byte, 1<<20)
-		dump = string(buf[:runtime.Stack(buf, true)])
-	}
+	})
 	delivered := -1
 	if !w.sampler && !timeout {
 		delivered = int(w.taken.Load())
@@ -411,35 +398,19 @@ func c09Exec(raw json.RawMessage) Result {
 	if op.K != "prog" {
 		panic("unknown op kind " + op.K)
 	}
+	if concWD.exhausted() {
+		return concSkipped("prog")
+	}
 	impl, w, dump := c09RunOnce(&op)
 	o := ok()
 	switch {
 	case impl["timeout"].(bool):
 		// re-run alone in a fresh process before reporting (DESIGN §7)
-		if os.Getenv("ZVH_ALONE") == "" {
-			cmd := exec.Command(os.Args[0], "exec", "C09")
-			cmd.Env = append(os.Environ(), "ZVH_ALONE=1")
-			cmd.Stdin = bytes.NewReader(append(append([]byte(nil), raw...), '\n'))
-			var out bytes.Buffer
-			cmd.Stdout = &out
-			t := time.AfterFunc(3*c09Timeout, func() { _ = cmd.Process.Kill() })
-			err := cmd.Run()
-			t.Stop()
-			var child struct {
-				Impl map[string]any `json:"impl"`
-			}
-			if err == nil && json.Unmarshal(bytes.TrimSpace(out.Bytes()), &child) == nil && child.Impl != nil && child.Impl["timeout"] == false {
-				// slow machine, not a deadlock: report the clean re-run
-				impl = child.Impl
-				for k, v := range impl {
-					if f, isF := v.(float64); isF {
-						impl[k] = int(f)
-					}
-				}
-				break
-			}
+		if child, fine := concRerunAlone("C09", raw); fine {
+			impl = child // slow machine, not a deadlock: report the clean re-run
+			break
 		}
-		o = bad("C09:deadlock", "program did not finish within %v (also when re-run alone); goroutines:\n%s", c09Timeout, truncStr(dump, 6000))
+		o = bad("C09:deadlock", "program did not finish within %v (also when re-run alone); goroutines:\n%s", concWD.limit(), truncStr(dump, 6000))
 	case impl["panics"].(int) != 0:
 		fp, _ := w.firstP.Load().(string)
 		o = bad("C09:panic", "%d unexpected panic(s); first: %s", impl["panics"], truncStr(fp, 3000))
